@@ -95,8 +95,8 @@ func c11ParamsRun(ts []c11NamedTransport, c c11ParamsCase) (classes []string, no
 		_ = nt.t.ParamStrings(nil)
 		_ = nt.t.GetProto()
 	})
-	if o.Hung {
-		return append(classes, "hung"), true, o
+	if o.Hung || o.Inconclusive {
+		return append(classes, "gave-up-waiting"), true, o
 	}
 	return append(classes, cls...), nontrivial, o
 }
